@@ -486,6 +486,24 @@ void h_bintTimes_unit_s_1(void)  BODY_bintTimes_unit(0, 1)
 void h_bintTimes_unit_s_m1(void) BODY_bintTimes_unit(0, -1)
 
 /* ============================== shifts ================================================================ */
+#ifdef C11_MODEL_IINTSHIFT
+/* MODULAR: iintShift is replaced (definition renamed on every run, tools/vlib.py splice "_rename_def") by a model of
+ * its own contract c_iintShift, which the iint.iintShift.* jobs enforce on the real iintShift: the precondition is
+ * an obligation of the caller, the postcondition is all the caller may rely on */
+void iintShift(BInt r, BInt b, int n)
+{
+	bs_u m; int i, pc;
+	CHECK("bintShift calls iintShift inside iintShift's precondition", PRE_iintShift(r, b, n));
+	m = BS_SHIFTED(BS_MAG(b), n);
+	pc = (m >> 96) ? 4 : (m >> 64) ? 3 : (m >> 32) ? 2 : 1;
+	for (i = 0; i < 4; i++) if ((Length) i < r->placea && i < pc) r->placev[i] = (BIntS) (m >> (32 * i));
+	r->placec = pc;
+	r->isNeg = b->isNeg;
+}
+#endif
+#ifndef BINTSHIFT_RESULT_BITS
+#define BINTSHIFT_RESULT_BITS 127	/* -DBINTSHIFT_RESULT_BITS=65: results around the immediate/stored boundary only (quick tier) */
+#endif
 #define BODY_bintShift(K) \
 { \
 	INPUT(BIntS, sent); g_sent = sent; \
@@ -494,7 +512,7 @@ void h_bintTimes_unit_s_m1(void) BODY_bintTimes_unit(0, -1)
 	CANON3(b); \
 	/* bound: the result has at most 4 digits (127 bits) */ \
 	ASSUME(n > -200 && n < 128 && (n <= 0 || (BS_SHIFTED(BS_ABS(BS_V(b)), n) >> n) == BS_ABS(BS_V(b))) && \
-	       BS_SHIFTED(BS_ABS(BS_V(b)), n) < (((bs_u) 1) << 127)); \
+	       BS_SHIFTED(BS_ABS(BS_V(b)), n) < (((bs_u) 1) << BINTSHIFT_RESULT_BITS)); \
 	bs_v vb = BS_V(b); \
 	BInt r = bintShift(b, n); \
 	CHECK("bintShift: exact (right shift truncates the magnitude) and canonical", POST_bintShift(vb, n, r)); \
